@@ -591,6 +591,9 @@ func Run(r *monitor.Run) {
 	c.predicates()
 	// ---- 6. encoding is a function of the value: many goroutines packing at once (the encoder's buffer pool)
 	c.concurrentEncode()
+	// ---- 7. what ReadPacket returned stays what it was; encodings after a broken write
+	c.retention()
+	c.encodeAfterFailedWrite()
 }
 
 // concurrentEncode: every goroutine packs its own v5 values over and over while the others do the same; the
